@@ -97,7 +97,7 @@ AllDevs == {"AttachNoPrefix", "EmptySearch", "SegNoParent"}
 CacheIds == {"m1", "m2"}
 NoPol == [t \in PTypes |-> "none"]
 NoComp == <<0, "">>
-DigestComp == <<2, "#">>           \* ParametersSha256DigestComponent (value abstracted)
+DigestType == 2                    \* ParametersSha256DigestComponent: DigestOf(parameters, signature) below
 SegType == 50
 SegComp(i) == <<SegType, ToString(i)>>
 NoContent == [k |-> "none", e |-> "", v |-> ""]
@@ -210,6 +210,10 @@ Save(es, n, p) ==
     IF Has(es, n) THEN [i \in 1..Len(es) |-> IF es[i].n = n THEN [n |-> n, p |-> p] ELSE es[i]]
     ELSE Append(es, [n |-> n, p |-> p])
 
+Str(c) == IF c.e = "" THEN c.v ELSE "E" \o c.e \o ":" \o c.v       \* the bytes of a content (see schemakit)
+\* the digest component of an Interest is a function of its parameters and of who signed it (and of the name
+\* in front of it, which is there anyway)
+DigestOf(ap, s) == <<DigestType, "#" \o Str(ap) \o "/" \o s>>
 Enc(key, c) == IF c.k = "none" THEN c ELSE [k |-> "c", e |-> key, v |-> c.v]       \* c is plaintext
 Dec(key, c) == IF c.k = "c" /\ c.e = key THEN Plain(c.v) ELSE NoContent
 
@@ -239,8 +243,10 @@ Express(t, cs, m, ap, cbp) ==
     ELSE IF m.pol.LocalOnly # "none" THEN [k |-> "raise", err |-> "LocalResourceNotExistError"]
     ELSE LET ap1 == IF ap.k # "none" /\ m.pol.IntEnc # "none" THEN Enc(m.pol.IntEnc, ap) ELSE ap
              sg == IF m.pol.IntSign # "none" THEN m.pol.IntSign ELSE IF ap1.k # "none" THEN "digest" ELSE "none"
-             fname == IF ap1.k # "none" \/ sg # "none" THEN Append(m.name, DigestComp) ELSE m.name
-         IN [k |-> "sent", int |-> [t |-> "I", n |-> fname, ap |-> ap1, s |-> sg, cbp |-> cbp],
+             fname == IF ap1.k # "none" \/ sg # "none" THEN Append(m.name, DigestOf(ap1, sg)) ELSE m.name
+         IN IF fname = <<>> THEN [k |-> "raise", err |-> "IndexError"]    \* NDNApp.express_interest cannot take the empty name
+            ELSE
+            [k |-> "sent", int |-> [t |-> "I", n |-> fname, ap |-> ap1, s |-> sg, cbp |-> cbp],
              wait |-> [m |-> m, fname |-> fname, cbp |-> cbp,
                        val |-> IF m.pol.DataVal # "none" THEN m.pol.DataVal ELSE "default"]]
 
@@ -255,7 +261,6 @@ NoSeg == [on |-> FALSE]
 \* SegmentedNode.need: segment after segment through the <seg:seg_no> child's need() (= express), until a
 \* segment whose FinalBlockId is its own number; st = [on, m0, cur, got, tries]
 \*   -> [k |-> "raise", err, cs] | [k |-> "done", cs, got] | [k |-> "sent", cs, int, wait]
-Str(c) == IF c.e = "" THEN c.v ELSE "E" \o c.e \o ":" \o c.v       \* the bytes of a content (see schemakit)
 RECURSIVE JoinStr(_)
 JoinStr(cs) == IF cs = <<>> THEN "" ELSE Str(Head(cs)) \o JoinStr(Tail(cs))
 RECURSIVE SegLoop(_, _)
@@ -264,12 +269,14 @@ SegLoop(cs, st) ==
         ex == Express(tree, cs, sm, NoContent, FALSE) IN
     IF ex.k = "raise" THEN [k |-> "raise", err |-> ex.err, cs |-> cs]
     ELSE IF ex.k = "sent" THEN [k |-> "sent", cs |-> cs, int |-> ex.int, wait |-> ex.wait @@ [seg |-> st]]
-    ELSE IF ex.fbi = SegComp(st.cur) THEN [k |-> "done", cs |-> ex.cs, got |-> Append(st.got, ex.c), n |-> st.cur + 1]
+    ELSE IF ex.fbi = SegComp(st.cur) THEN [k |-> "done", cs |-> ex.cs, got |-> Append(st.got, ex.c), n |-> st.cur + 1, lastm |-> ex.m]
     ELSE SegLoop(ex.cs, [st EXCEPT !.cur = @ + 1, !.got = Append(@, ex.c), !.tries = 0])
-\* what need() returns once the last segment is there: b''.join fails on a segment that could not be decrypted
+\* what need() returns once the last segment is there (env of the object's match; path = the node that processed
+\* the last segment); b''.join fails on a segment that could not be decrypted
 SegRes(op, hit, st, r) ==
     IF \E i \in 1..Len(r.got) : r.got[i].k = "none" THEN Raise(op, "TypeError")
-    ELSE DataRes(op, hit, Plain(JoinStr(r.got)), st.m0, NoComp, r.n)
+    ELSE [op |-> op, k |-> "data", hit |-> hit, c |-> Plain(JoinStr(r.got)), env |-> st.m0.env, path |-> r.lastm.path,
+          fbi |-> NoComp, blocks |-> r.n]
 
 ----------------------------------------------------------------------------
 Init ==
@@ -447,7 +454,7 @@ Deliver(ext, c, ok, fin) ==
                  THEN res' = DataRes("deliver", FALSE, od.c, od.m, od.fbi, 0) /\ caches' = od.cs /\ pend' = <<>> /\ sent' = <<>>
                  ELSE LET st == e.seg IN
                       IF od.fbi = SegComp(st.cur)
-                      THEN /\ res' = SegRes("deliver", FALSE, st, [got |-> Append(st.got, od.c), n |-> st.cur + 1])
+                      THEN /\ res' = SegRes("deliver", FALSE, st, [got |-> Append(st.got, od.c), n |-> st.cur + 1, lastm |-> od.m])
                            /\ caches' = od.cs /\ pend' = <<>> /\ sent' = <<>>
                       ELSE LET r == SegLoop(od.cs, [st EXCEPT !.cur = @ + 1, !.got = Append(@, od.c), !.tries = 0]) IN
                            CASE r.k = "raise" -> res' = Raise("deliver", r.err) /\ sent' = <<>> /\ caches' = r.cs /\ pend' = <<>>
@@ -474,8 +481,8 @@ Fail(kind) ==
 \* the face hands an Interest to the application: name, ApplicationParameters, signature ("none" | "good" | "bad")
 IntRec(m, ap) == [path |-> m.path, pos |-> m.pos, ap |-> ap]
 Interest(name, ap, sg) ==
-    /\ Op /\ (sg # "none" => ap.k # "none")
-    /\ LET fname == IF ap.k # "none" THEN Append(name, DigestComp) ELSE name IN
+    /\ Op /\ (sg # "none" => ap.k # "none") /\ name # <<>>      \* (an Interest carries at least one name component)
+    /\ LET fname == IF ap.k # "none" THEN Append(name, DigestOf(ap, IF sg = "good" THEN "digest" ELSE sg)) ELSE name IN
        IF ~\E f \in filt : IsPrefix(f, fname)
        THEN res' = [op |-> "interest", k |-> "noroute", n |-> fname] /\ Quiet
        ELSE /\ IsPrefix(rprefix, fname)
@@ -519,7 +526,10 @@ N_ProvideSeg == \E n \in QNames, ch \in SegContents, s \in BOOLEAN : ProvideSeg(
 N_Need == \E n \in QNames, ap \in OptAp, cbp \in BOOLEAN : Need(n, ap, cbp)
 N_Deliver == \E x \in Exts, c \in NetContents, ok \in BOOLEAN, fin \in BOOLEAN : Deliver(x, c, ok, fin)
 N_Fail == \E kd \in {"nack", "timeout"} : Fail(kd)
-N_Interest == \E n \in QNames, ap \in OptAp, sg \in {"none", "good", "bad"} : Interest(n, ap, sg)
+\* the parameters of an incoming Interest may be encrypted with a key some InterestEncryption policy of the tree uses
+IntKeys == {tree[p].pol.IntEnc : p \in DOMAIN tree} \ {"none"}
+N_Interest == \E n \in QNames, ap \in OptAp \cup {Enc(ke, Plain(v)) : ke \in IntKeys, v \in AppParams},
+                 sg \in {"none", "good", "bad"} : Interest(n, ap, sg)
 
 Next == \/ N_GetItem \/ N_SetItem \/ N_SetPolicy \/ N_SetPolicyWrong \/ N_SetPrefix
         \/ N_QMatch \/ N_QFinerMatch \/ N_QExist \/ N_QGetPolicy
@@ -633,7 +643,7 @@ InterestHit == (res.op = "interest" /\ res.k = "hit") =>
     /\ \E cid \in CacheIds : Has(caches[cid], sent[1].n) /\ [t |-> "D"] @@ At(caches[cid], sent[1].n) = sent[1]
 InterestMiss == (res.op = "interest" /\ res.k # "hit") => sent = <<>>
 \* an Interest leaves only through need(), never for a name governed by LocalOnly, and then one is pending
-StripDigest(n) == IF n # <<>> /\ Last(n) = DigestComp THEN Front(n) ELSE n
+StripDigest(n) == IF n # <<>> /\ Last(n)[1] = DigestType THEN Front(n) ELSE n
 LocalOnlyNeverSends == \A i \in 1..Len(sent) : sent[i].t = "I" =>
     /\ res.op \in {"need", "deliver", "fail"} /\ res.k = "pending" /\ Len(pend) = 1 /\ pend[1].fname = sent[i].n
     /\ M(StripDigest(sent[i].n)).pol.LocalOnly = "none"
@@ -691,6 +701,20 @@ W_SignedInterestSent == ~(\E i \in 1..Len(sent) : sent[i].t = "I" /\ sent[i].s \
 W_TwoCaches == ~(caches["m1"] # <<>> /\ caches["m2"] # <<>>)
 W_LocalOnlyCached == ~(res.op = "provide" /\ \E cid \in CacheIds : \E i \in 1..Len(caches[cid]) :
                           M(caches[cid][i].n).pol.LocalOnly # "none")
+W_SegReassembled == ~(res.op = "deliver" /\ res.k = "data" /\ res.blocks >= 2)
+W_SegFromCache == ~(res.op = "need" /\ res.k = "data" /\ res.blocks >= 2)
+W_SegRetry == ~(res.op = "fail" /\ res.k = "pending")
+W_SegTimeout == ~(res.op = "fail" /\ res.k = "raise" /\ res.err = "InterestTimeout" /\ call = <<"Fail", "timeout">>)
+W_SegInterestZero == ~(res.op = "interest" /\ Len(ints) = 2)
+W_LocalNeed == ~(res.op = "need" /\ res.k = "local" /\ res.c.k = "c")
 W_AttachPrefixLost == ~(phase = "run" /\ aprefix # <<>> /\ rprefix = <<>> /\ res.op = "interest" /\ res.k = "proc"
                         /\ ints[1].pos = 0)
+\* all witnesses in one run: WCollect (an invariant that always holds) notes in TLC registers which witness
+\* situations were seen, the POSTCONDITION WPost prints the ones that were not (workers = 1)
+WNames == <<"W_PatternTaken", "W_ExactOverPattern", "W_GreedyNotLongest", "W_MatchStopsEarly", "W_RootPrefixError", "W_NodeExists", "W_VarRenamed", "W_PolicyShadowed", "W_FinerPartial", "W_RegStopsAtRefusal", "W_RegCachePattern", "W_RegNothing", "W_NeedHit", "W_NeedHitLonger", "W_LocalOnlyRaise", "W_EmptySearchRaise", "W_Decrypted", "W_WrongKey", "W_ValidationFailure", "W_PolicyValidatorAcceptsBad", "W_InterestHit", "W_InterestDropped", "W_InterestDecrypted", "W_SignedInterestSent", "W_TwoCaches", "W_LocalOnlyCached", "W_SegReassembled", "W_SegFromCache", "W_SegRetry", "W_SegTimeout", "W_SegInterestZero", "W_LocalNeed", "W_AttachPrefixLost">>
+WVals == <<W_PatternTaken, W_ExactOverPattern, W_GreedyNotLongest, W_MatchStopsEarly, W_RootPrefixError, W_NodeExists, W_VarRenamed, W_PolicyShadowed, W_FinerPartial, W_RegStopsAtRefusal, W_RegCachePattern, W_RegNothing, W_NeedHit, W_NeedHitLonger, W_LocalOnlyRaise, W_EmptySearchRaise, W_Decrypted, W_WrongKey, W_ValidationFailure, W_PolicyValidatorAcceptsBad, W_InterestHit, W_InterestDropped, W_InterestDecrypted, W_SignedInterestSent, W_TwoCaches, W_LocalOnlyCached, W_SegReassembled, W_SegFromCache, W_SegRetry, W_SegTimeout, W_SegInterestZero, W_LocalNeed, W_AttachPrefixLost>>
+WBase == 2000000
+ASSUME \A i \in 1..Len(WNames) : TLCSet(WBase + i, FALSE)
+WCollect == LET w == WVals IN \A i \in 1..Len(WNames) : w[i] \/ TLCSet(WBase + i, TRUE)
+WPost == \A i \in 1..Len(WNames) : TLCGet(WBase + i) \/ PrintT(<<"UNREACHED", WNames[i]>>)
 =============================================================================
